@@ -46,19 +46,23 @@ Definition post (f : fault) (a : actor) : actor :=
   | _ => a
   end.
 
-(** what was observed for one actor in a run where the resource went off at date T:
+(** what was observed for one actor in a run where the resource went off at date T (and stays off until the end):
     o_killed / o_failed: an on_exit callback ran at date T / with failed = true; o_exc: exception caught at date T
-    (0 none, 1 NetworkFailure, 2 HostFailure, 3 other); o_end: what the actor is blocked on when the engine reports a
-    deadlock at the end (kind 0 when it is not blocked or there is no deadlock) *)
-Record obs := mkObs { o_actor : actor; o_killed : bool; o_failed : bool; o_exc : Z; o_end : wait }.
+    (0 none, 1 NetworkFailure, 2 HostFailure, 3 other); o_done: the operation the actor was blocked on when the resource
+    went off returned successfully afterwards (at any later date: the resource is off during the whole of
+    [T, completion]); o_end: what the actor is blocked on when the engine reports a deadlock at the end (kind 0 when it
+    is not blocked or there is no deadlock) *)
+Record obs := mkObs { o_actor : actor; o_killed : bool; o_failed : bool; o_exc : Z; o_done : bool; o_end : wait }.
 
 (** verdict for one actor: 0 fine, 1 an actor of the failed host survives, 2 its on_exit saw failed = false,
     3 a surviving waiter got no exception, 4 it got the wrong exception, 5 it stays blocked for ever on an activity
-    that uses the failed resource *)
+    that uses the failed resource, 6 the activity it was blocked on used the resource that went off and nevertheless
+    completed successfully (through a resource that is off from T to the completion) *)
 Definition verdict (f : fault) (o : obs) : Z :=
   let a := o_actor o in
   if uses f (o_end o) && negb (w_kind (o_end o) =? 0) then 5
   else if negb (a_alive a) then 0
+  else if uses f (a_wait a) && o_done o then 6
   else if on_failed_host f a then (if negb (o_killed o) then 1 else if negb (o_failed o) then 2 else 0)
   else if uses f (a_wait a) then
     (if o_exc o =? 0 then 3
@@ -68,7 +72,7 @@ Definition verdict (f : fault) (o : obs) : Z :=
 Definition failure_log_ok (f : fault) (l : list obs) : bool := forallb (fun o => verdict f o =? 0) l.
 
 (** ---- integer-list entry points:  fk fid n  then per actor:
-    host alive kind src dst nl links..  killed failed exc  ekind esrc edst enl elinks.. *)
+    host alive kind src dst nl links..  killed failed exc done  ekind esrc edst enl elinks.. *)
 Definition fault_of (fk fid : Z) : fault := if fk =? 1 then FHost fid else FLink fid.
 Definition dec_wait (l : list Z) : wait * list Z :=
   match l with
@@ -82,9 +86,9 @@ Fixpoint dec_obs (fuel : nat) (l : list Z) : list obs :=
            | h :: al :: r =>
                let '(w, r1) := dec_wait r in
                match r1 with
-               | k :: fl :: e :: r2 =>
+               | k :: fl :: e :: dn :: r2 =>
                    let '(we, r3) := dec_wait r2 in
-                   mkObs (mkActor h (al =? 1) w) (k =? 1) (fl =? 1) e we :: dec_obs f r3
+                   mkObs (mkActor h (al =? 1) w) (k =? 1) (fl =? 1) e (dn =? 1) we :: dec_obs f r3
                | _ => []
                end
            | _ => []
